@@ -113,7 +113,15 @@ impl Gen {
             4 => self.rng.range(300, 1200) as usize,
             _ => self.rng.range(0, 40) as usize,
         };
-        self.rng.bytes(n)
+        let mut b = self.rng.bytes(n);
+        // opaque data that ends in zero octets, or is all zero (bit maps, keys, digests): a writer that
+        // "canonicalises" by trimming them changes the value
+        match self.rng.below(8) {
+            0 => { let k = b.len().min(1 + self.rng.below(3) as usize); let l = b.len(); for x in &mut b[l - k..] { *x = 0; } }
+            1 => { for x in &mut b { *x = 0; } }
+            _ => {}
+        }
+        b
     }
 
     pub fn cs_bytes(&mut self) -> Vec<u8> {
@@ -207,7 +215,15 @@ impl Gen {
                     let n = self.rng.range(1, 4);
                     let mut t = TXT::new();
                     for _ in 0..n {
-                        t.add_char_string(self.cs());
+                        // every builder entry point: add_char_string, add_string, with_char_string, with_string
+                        let bytes = self.cs_bytes();
+                        let text = std::str::from_utf8(&bytes).ok().map(|x| -> &'static str { Box::leak(x.to_string().into_boxed_str()) });
+                        t = match (self.rng.below(4), text) {
+                            (1, Some(x)) => { t.add_string(x).unwrap(); t }
+                            (2, _) => t.with_char_string(mk_cs(&bytes)),
+                            (3, Some(x)) => t.with_string(x).unwrap(),
+                            _ => { t.add_char_string(mk_cs(&bytes)); t }
+                        };
                     }
                     RData::TXT(t)
                 }
